@@ -7,7 +7,7 @@ PROPS = ['WakeOnWorldTime', 'OthersFrozen', 'GenMonotone', 'FreshRunsAtOnce']
 
 
 def consts(**kw):
-    K = dict(Hs={'A', 'B'}, Wait={'A': 3, 'B': 2}, Incs={0, 1, 2}, MaxFrames=5, MaxGen=3)
+    K = dict(Hs={'A', 'B'}, Wait={'A': 3, 'B': 2}, Incs={0, 1, 2}, MaxFrames=5, MaxGen=3, WakeAtDeadline=True)
     K.update(kw)
     return K
 
@@ -32,3 +32,14 @@ def check_and_replay(res, name, K=None, own=None, walks=1500, walk_len=8, edges=
     for s, labs, _t in replay.random_walks(g, 1, 6, res.seed + 1):
         res.sample({'config': name, 'calls': ['%s%s' % (n, list(a)) for n, a in labs]})
     return g
+
+
+def model_only(res, name, K):
+    """Instances too large to dump: the TLC properties of the composed module over more handles, frames and instances."""
+    res.model_check_py('Game', name, K, invariants=INV, properties=PROPS, dump=False)
+
+
+def non_vacuity(res, name):
+    """A sleeper woken one comparison too late: TLC must report the wake-up properties of the composed module."""
+    res.model_check_py('Game', name, consts(MaxFrames=4, WakeAtDeadline=False), invariants=INV, properties=PROPS,
+                       expect_violation=('NoOversleep', 'WakeOnWorldTime'), count=False)
